@@ -154,7 +154,8 @@ def main_c35(run):
                     run.violation("history:" + key, f"event {i} ({e['ev']} {e['n']}) of {key} expanded to {R.get(i)}, the "
                                   f"documented lookup order gives {e['res']}", {"history": h, "text": text})
                     break
-        wn = [("when" if "`when`" in x else x) for x in warned]
+        import re as _re
+        wn = [(_re.search(r"`([^`]+)`", x).group(1) if _re.search(r"`([^`]+)`", x) else x) for x in warned]
         if ok and wn != rec["warned"]:
             ok = False
             run.violation("warn:" + key, f"history {key}: shadow warnings {wn}, expected {rec['warned']}",
@@ -378,6 +379,33 @@ def main_c37(run):
                     ok = False
                     run.violation("B:" + key, f"module B stream {c['sb']} after A {c['sa']}: OUT={mb.OUT}, expected "
                                   f"{expected_out(wb)}", {"case": c, "text": tb})
+            # route 3: fresh copies, B imported first, so that A is read and compiled while B is being compiled
+            # (by B's require); both modules must behave exactly as when imported one after the other
+            if wa["err"] == 0 and any(k_ == "req" for k_, _n in c["sb"]):
+                an2, bn2 = an + "_n", bn + "_n"
+                (d / f"{an2}.hy").write_text(ta)
+                (d / f"{bn2}.hy").write_text(render_stream(c["sb"], 200, an2))
+                importlib.invalidate_caches()
+                mb2, eb2 = load(bn2)
+                wb = c["rb"]
+                ma2 = sys.modules.get(an2)
+                if (eb2 is not None) != (wb["err"] != 0):
+                    ok = False
+                    run.violation("nested:" + key, f"module B stream {c['sb']} imported first (A {c['sa']} compiled during B's "
+                                  f"require): import {'failed with ' + str(eb2) if eb2 else 'succeeded'}, expected "
+                                  f"{'an error at item %d' % wb['err'] if wb['err'] else 'success'}", {"case": c, "text": tb})
+                elif eb2 is None and (mb2.OUT != expected_out(wb) or ma2 is None or ma2.OUT != expected_out(wa)
+                                      or set(ma2.__dict__.get("_hy_reader_macros", {})) != {n_ for n_, t_ in wa["tab"].items() if t_ != 0}):
+                    ok = False
+                    run.violation("nested:" + key, f"B imported first: B.OUT={mb2.OUT} (expected {expected_out(wb)}), "
+                                  f"A.OUT={getattr(ma2, 'OUT', None)} (expected {expected_out(wa)}), A's reader macros "
+                                  f"{sorted(getattr(ma2, '_hy_reader_macros', {}))}", {"case": c, "text": tb})
+                if HyReader._current_reader is not None:
+                    ok = False
+                    run.violation("current-reader:" + key, "HyReader._current_reader is not None after a nested import", {"case": c})
+                    HyReader._current_reader = None
+                for nm in (an2, bn2):
+                    sys.modules.pop(nm, None)
             if ok:
                 run.cov["traces_validated_against_impl"] += 1
             for nm in (an, bn):
